@@ -37,8 +37,8 @@ from gen import g2_molecules as g2
 from specs import chem_checks as cc
 
 ID = 'C01'
-LEVEL = 'exploration'
-P_TARGETS = []
+LEVEL = 'other'
+P_TARGETS = ['cgsmiles.resolve:compatible', 'cgsmiles.resolve:match_bonding_descriptors', 'cgsmiles.resolve:MoleculeResolver.edges_from_bonding_descrpt']
 BUDGET = {'quick': 33.0, 'thorough': 440.0}
 CHUNK = 60
 BOUNDS = {
